@@ -1,4 +1,5 @@
 import Invoke.Lemmas.ParserSituations
+import Invoke.Lemmas.ParserSpecs
 import Invoke.Generated.Parser
 /-! # C07 — parsing is total, side-effect free and fails only with the documented parse error
 
@@ -64,6 +65,18 @@ theorem parse_never_out_of_fuel (initial : Option Ctx) (registry : List Ctx) (ig
   intro h
   obtain ⟨k, d, he, _⟩ := error_only_documented initial registry ign argv hP _ h
   cases he
+
+/-- WF IS WHAT TASK SIGNATURES GIVE.  A registry whose contexts are built by `add_arg` (`Ctx.ofSpecs`) from named
+    tasks whose argument specs are well-formed (`ArgSpec.wf`: a counter has an integer default; kinds are those of the
+    model) satisfies `specWF` — so `parse_total` applies to every parser built from such signatures. -/
+theorem specWF_of_built (reg : List Ctx)
+    (h : ∀ c ∈ reg, ∃ name aliases sps, (∀ sp ∈ sps, ArgSpec.wf sp = true) ∧ Ctx.ofSpecs (some name) aliases sps = .ok c) :
+    specWF none reg = true := by
+  simp only [specWF, optOkI, Bool.true_and]
+  apply List.all_eq_true.mpr
+  intro c hc
+  obtain ⟨name, aliases, sps, hw, hb⟩ := h c hc
+  exact Ctx.ofSpecs_okR name aliases sps c hw hb
 
 /-- one step of the machine keeps the invariant or fails with a documented `ParseError` (the induction step) -/
 theorem handle_total (m : M) (tok : Tok) (h : MInv m) :
@@ -156,6 +169,9 @@ def errKind : Except Err PResult → Option String
   | .error .fuel => some "FUEL"
   | .ok _ => none
 
+/-- `specWF_of_built` applies to the example registry: every spec is well-formed -/
+example : ∀ sp ∈ [({ names := ["v".toList], kind := .int, default := .i 0, incrementable := true } : ArgSpec),
+                  { names := ["lst".toList], kind := .list, default := .l [] }], ArgSpec.wf sp = true := by decide
 /-- the hypothesis of the totality theorems is satisfiable: this specification is well-formed … -/
 example : specWF (some exCore) exReg = true := by decide
 /-- … and so is a parser without an initial context -/
